@@ -28,7 +28,9 @@ class Algebra:
 
     def __init__(self, scope="proof", nsims=3):
         self.scope = scope
-        self.small = scope == "small"
+        self.small = scope in ("small", "small2")
+        self.two = scope == "small2"     # depth-2 scope: every simulator in one group; times = hi * W + lo
+        self.W = 4
         self.axioms = []   # (name, formula, provenance)
         if self.small:
             if nsims not in _ENUMS:
@@ -58,29 +60,48 @@ class Algebra:
             self._axioms()
         self.Str = z3.DeclareSort("Str")
         self.f_depth = z3.Function("depth", self.Sim, z3.IntSort())
-        self.TB = 10            # small scope: all times range over 0..TB-1 (assumed for every time term created)
+        self.TB = 16 if self.two else 10   # small scope: all times range over 0..TB-1 (assumed for every time term created)
         self.time_terms = []    # (unused for quantifier expansion since the range is fixed)
 
     # ---- operations (work in both scopes)
     def tlen(self, t):
+        if self.two:
+            return 2
         return 1 if self.small else self.f_tlen(t)
 
     def tier(self, t, i):
+        if self.two:
+            if isinstance(i, int):
+                return _div(t, self.W) if i == 0 else t % self.W
+            return z3.If(i == 0, _div(t, self.W), t % self.W)
         return t if self.small else self.f_tier(t, i)
 
     def time(self, t):
+        if self.two:
+            return _div(t, self.W)
         return t if self.small else self.f_tier(t, 0)
 
     def dpre(self, d):
+        if self.two:
+            return 2
         return 1 if self.small else self.f_dpre(d)
 
     def dcut(self, d):
+        if self.two:
+            return _div(d, self.W * self.W) + 1
         return 1 if self.small else self.f_dcut(d)
 
     def dlen(self, d):
+        if self.two:
+            return 2
         return 1 if self.small else self.f_dlen(d)
 
     def dtier(self, d, i):
+        if self.two:
+            d0, d1 = _div(d, self.W) % self.W, d % self.W
+            if isinstance(i, int):
+                return d0 if i == 0 else d1
+            return z3.If(i == 0, d0, d1)
         return d if self.small else self.f_dtier(d, i)
 
     def lt(self, t, u):
@@ -90,28 +111,50 @@ class Algebra:
         return t <= u if self.small else self.f_tle(t, u)
 
     def plus(self, t, d):
+        if self.two:
+            W = self.W
+            hi, lo = _div(t, W), t % W
+            return (hi + self.dtier(d, 0)) * W + z3.If(self.dcut(d) == 2, lo + self.dtier(d, 1), self.dtier(d, 1))
         return t + d if self.small else self.f_plus(t, d)
 
     def comp(self, a, b):
+        if self.two:
+            W = self.W
+            cut = z3.If(self.dcut(a) <= self.dcut(b), self.dcut(a), self.dcut(b))
+            d0 = self.dtier(a, 0) + self.dtier(b, 0)
+            d1 = z3.If(self.dcut(b) == 2, self.dtier(a, 1) + self.dtier(b, 1), self.dtier(b, 1))
+            return (cut - 1) * W * W + d0 * W + d1
         return a + b if self.small else self.f_comp(a, b)
 
     def dlt(self, a, b):
+        if self.two:
+            return a % (self.W * self.W) < b % (self.W * self.W)
         return a < b if self.small else self.f_dlt(a, b)
 
     def dle(self, a, b):
+        if self.two:
+            return z3.Or(a == b, self.dlt(a, b))
         return a <= b if self.small else z3.Or(a == b, self.f_dlt(a, b))
 
     def mkT1(self, x):
+        if self.two:
+            return x * self.W      # carried as (x, 0); lengths are not modelled in the small scopes
         return x if self.small else self.f_mkT1(x)
 
     def at_world(self, x, depth):
         """TieredTime(x) + from_world_time of a simulator of that depth = (x, 0, ..., 0)"""
+        if self.two:
+            return x * self.W
         return x if self.small else self.f_world(x, depth)
 
     def depth(self, s):
+        if self.two:
+            return 2
         return 1 if self.small else self.f_depth(s)
 
     def d_wf(self, d):
+        if self.two:
+            return z3.And(d >= 0, d < 2 * self.W * self.W)
         if self.small:
             return d >= 0
         return z3.And(1 <= self.f_dcut(d), self.f_dcut(d) <= self.f_dpre(d), self.f_dcut(d) <= self.f_dlen(d))
@@ -231,6 +274,11 @@ class Algebra:
 
 _q = itertools.count()
 _ENUMS = {}
+
+
+def _div(x, k):
+    """integer division by a positive constant (Python ints and z3 Ints alike)"""
+    return x // k if isinstance(x, int) else x / k
 
 
 # ======================================================================== heap handles
@@ -411,7 +459,7 @@ class Model:
                     arr = z3.K(a.Sim, v) if arr is None else z3.Store(arr, c, v)
                     if k in ("P", "CSv", "LS", "OT", "NSSv", "BGv"):
                         a.time_terms.append(v)
-                        self.small_bounds.append(z3.And(v >= (-1 if k == "LS" else 0), v < a.TB))
+                        self.small_bounds.append(z3.And(v >= (-1 if k == "LS" and not a.two else 0), v < a.TB))
                 h[k] = arr
         for c in a.sims:
             for x in range(a.TB):
@@ -419,8 +467,13 @@ class Model:
             self.small_bounds.append(z3.And(self.fwt(c) == 0))
             for b in a.sims:
                 for vv in (self.TAv, self.IDv, self.SUv, self.SWv):
-                    self.small_bounds.append(z3.And(vv(c, b) >= 0, vv(c, b) <= 3))
-        self.small_bounds.append(z3.And(self.until >= 0, self.until < a.TB))
+                    self.small_bounds.append(z3.And(vv(c, b) >= 0, vv(c, b) < 2 * a.W * a.W) if a.two
+                                             else z3.And(vv(c, b) >= 0, vv(c, b) <= 3))
+                for j in range(self.J):
+                    self.small_bounds.append(z3.And(self.TRv(c, b, j) >= 0, self.TRv(c, b, j) < 2 * a.W * a.W) if a.two
+                                             else z3.And(self.TRv(c, b, j) >= 0, self.TRv(c, b, j) <= 3))
+        self.small_bounds.append(z3.And(self.until >= 0, self.until < (a.TB // a.W if a.two else a.TB)))
+        self.small_bounds.append(z3.And(self.max_loop >= 1, self.max_loop <= a.W))
         return h
 
     def min_of(self, it, ns):
@@ -462,7 +515,7 @@ class Model:
             return {}
         from ..discharge import model_value as mv
         names = [str(c) for c in a.sims]
-        out = {"sims": {}, "until": mv(m, self.until), "rt_factor": None, "TB": a.TB,
+        out = {"sims": {}, "until": mv(m, self.until), "rt_factor": None, "TB": a.TB, "scope": a.scope, "W": a.W,
                "max_loop_iterations": mv(m, self.max_loop), "use_cache": mv(m, self.use_cache)}
         if mv(m, self.rt_d) is True:
             out["rt_factor"] = mv(m, self.rt_v)
@@ -694,7 +747,7 @@ class Model:
         if self.alg.small:
             if is_z3(t) and self._cur_p is not None and t.get_id() not in self._ranged:
                 self._ranged.add(t.get_id())
-                self._cur_p.assume(z3.And(t >= -1, t < self.alg.TB))
+                self._cur_p.assume(z3.And(t >= (0 if self.alg.two else -1), t < self.alg.TB))
             return TInt(t)
         return t
 
@@ -847,6 +900,8 @@ class Model:
             if not a.small:
                 it.check_raise(a.tlen(t) != a.dpre(d), "AssertionError", node,
                                "TieredTime.__add__: len(self.tiers) == interval.pre_length")
+            if a.two:
+                it.p.assume(z3.Or(a.dcut(d) != 2, t % a.W + a.dtier(d, 1) < a.W))   # stay inside the encoding
             return self.T_(a.plus(t, d))
         if name == "add" and self.is_D(x) and self.is_D(y):
             d, e = self.unD(x), self.unD(y)
@@ -946,7 +1001,7 @@ class Model:
                     raise Unsupported("TieredTime(real)")
                 return self.T_(a.mkT1(x))
             if a.small:
-                return self.T_(args[0])
+                return self.T_(args[0] * a.W if a.two else args[0])
             # TieredTime(x, *zeros) : fresh term with defined shape/tiers
             parts = list(args)
             r = it.p.fresh("tt", a.T)
@@ -1017,7 +1072,7 @@ class Model:
                     v = z3.Const(f"{tag}{n}.{k}[{c}]", rng)
                     arr = z3.K(a.Sim, v) if arr is None else z3.Store(arr, c, v)
                     if k in ("P", "CSv", "LS", "OT", "NSSv", "BGv"):
-                        p.assume(z3.And(v >= (-1 if k == "LS" else 0), v < a.TB))
+                        p.assume(z3.And(v >= (-1 if k == "LS" and not a.two else 0), v < a.TB))
                 h[k] = arr
         self.small_sync(p, h)
 
